@@ -1,4 +1,4 @@
-import CV.Proofs.Conn
+import CV.Proofs.ConnClose
 /-
 C12 — Every connection: one connect, ordered reads, one disconnect, then no trace.
 
@@ -11,6 +11,10 @@ number (also a number a closed socket had) whose peer may already be gone, `writ
 any socket at any time (also long after its disconnect, or never connected), and poll rounds with
 arbitrary readiness and arbitrary `recv`/`send` outcomes per socket (data, EOF, EWOULDBLOCK, errors,
 partial and refused sends) — any number of concurrent connections, no bound on anything.
+W11: histories `List XOp` add the server-wide `close()` and the `stopped` event at any point
+(`spec_holds_x`, `lifecycle_x`, `no_trace_x`, `tables_x`, `server_close_all`, `stop_releases_all`); the client
+model covers TCPClient, UNIXClient (`connect .failed`), `prepare_unregister`, `stopped` and Pipe() ends
+(`client_lifecycle`, `client_unregister_releases`, `pipe_lifecycle`).
 -/
 namespace CV.C12
 open CV.Conn
@@ -101,6 +105,215 @@ theorem client_pairing_partial (ops : List Client.Op) (h : Client.noReconnect {}
 theorem client_reconnect_witness :
     Client.alternates false (Client.trace [.connect .ok, .connect .ok]) = false := by decide
 
+/-! ### W11: the whole server is closed / stopped; client release; Pipe ends
+
+Histories `List XOp`: everything above, plus the `close()` event without a socket (`.closeAll`) and the
+`stopped` event (`.stop`, `_on_stopped` fires `close()`) at any point, any number of times. -/
+
+/-- the extended histories extend the old ones conservatively -/
+theorem x_extends (k : Poller.Kind) (ops : List Op) : xtrace k (ops.map .op) = trace k ops := by
+  simp only [xtrace, xrun, trace, run, xrunFrom_op]
+
+/-- **`spec_holds` for histories with server-wide close and stop.** -/
+theorem spec_holds_x (k : Poller.Kind) (ops : List XOp) : specTrace (xtrace k ops) = true := by
+  have h := (ok_xrun k ops).spec
+  simp only [specTrace, xtrace]
+  rw [h]; rfl
+
+/-- **`lifecycle` for histories with server-wide close and stop**: still at most one `connect`, then at
+most one `disconnect`, per socket. -/
+theorem lifecycle_x (k : Poller.Kind) (ops : List XOp) (o : Poller.Obj) :
+    lifeOf o (xtrace k ops) = [] ∨ lifeOf o (xtrace k ops) = [.connect o] ∨
+    lifeOf o (xtrace k ops) = [.connect o, .disconnect o] := by
+  have h := life_ok {} (xtrace k ops) o (ok_xrun k ops).spec
+  simpa [allowedLife] using h
+
+/-- **`tables_only_connected` / `connected_iff_open` for histories with server-wide close and stop.** -/
+theorem tables_x (k : Poller.Kind) (ops : List XOp) (o : Poller.Obj) :
+    let s := (xrun k ops).1
+    (o ∈ s.clients ↔ (s.p.w.fno o).isSome = true) ∧
+    (o ∉ s.clients → s.buffers o = none ∧ o ∉ s.closeq ∧ o ∉ s.p.read ∧ o ∉ s.p.write ∧ s.p.targets o = none ∧
+      (∀ f, s.p.map f ≠ some o)) :=
+  ⟨⟨(ok_xrun k ops).inv.O o, (ok_xrun k ops).inv.C o⟩, fun h => no_table (ok_xrun k ops).inv h⟩
+
+/-- **`no_trace` for histories with server-wide close and stop**: once `disconnect o` has been observed (also
+one caused by a server-wide close or a stop), after *any* continuation (also further closes / stops) `o` is in
+no table and its descriptor is closed. -/
+theorem no_trace_x (k : Poller.Kind) (pre post : List XOp) (o : Poller.Obj)
+    (h : Obs.disconnect o ∈ xtrace k pre) :
+    let s := (xrun k (pre ++ post)).1
+    o ∉ s.clients ∧ s.buffers o = none ∧ o ∉ s.closeq ∧ o ∉ s.p.read ∧ o ∉ s.p.write ∧
+    s.p.targets o = none ∧ (∀ f, s.p.map f ≠ some o) ∧ s.p.w.fno o = none := by
+  intro s
+  have h1 := ok_xrun k pre
+  have g : (specAdv {} (xrun k pre).2).ph o = .gone := gone_after_disconnect {} _ o h1.spec h
+  have h2 := ok_xrunFrom (σ := specAdv {} (xrun k pre).2) post h1.inv h1.rel
+  have g2 := specAdv_final _ (xrunFrom (xrun k pre).1 post).2 o (Or.inl g) h2.spec
+  have es : s = (xrunFrom (xrun k pre).1 post).1 := by
+    show (xrunFrom (State.init k) (pre ++ post)).1 = _
+    rw [xrunFrom_append]; rfl
+  rw [es]
+  have hnc : o ∉ (xrunFrom (xrun k pre).1 post).1.clients := by
+    intro hc
+    have := (h2.rel.conn o).mpr hc
+    rw [g2, g] at this; cases this
+  obtain ⟨a1, a2, a3, a4, a5, a6⟩ := no_table h2.inv hnc
+  refine ⟨hnc, a1, a2, a3, a4, a5, a6, ?_⟩
+  cases hf : (xrunFrom (xrun k pre).1 post).1.p.w.fno o with
+  | none => rfl
+  | some f => exact absurd (h2.inv.C o (by simp [hf])) hnc
+
+/-- **Server-wide close**, in whatever state any history has left the server (`s`), `r` = what `close()` does:
+* every open connection without queued output is closed and gets exactly one `disconnect` (and no
+  `connect`) in the course of the close;
+* every open connection with queued output stays a client, waits in `_closeq` with its queue untouched and
+  gets no `disconnect` yet (it gets exactly one when the queue has drained or the peer dies: `lifecycle_x`,
+  `spec_holds_x` cover every continuation);
+* nothing is reported for a socket that was not connected;
+* if no connection has queued output, the close *completes* at once: `_clients` and `_closeq` are empty, no
+  table of server or poller mentions any socket, every descriptor is closed. -/
+theorem server_close_all (k : Poller.Kind) (ops : List XOp) :
+    let s := (xrun k ops).1
+    let r := closeAll s
+    (∀ o, o ∈ s.clients → bufGet s o = [] → o ∉ r.1.clients ∧ lifeOf o r.2 = [.disconnect o]) ∧
+    (∀ o, o ∈ s.clients → bufGet s o ≠ [] →
+        o ∈ r.1.clients ∧ o ∈ r.1.closeq ∧ r.1.buffers o = s.buffers o ∧ Obs.disconnect o ∉ r.2) ∧
+    (∀ o, o ∉ s.clients → o ∉ r.1.clients ∧ Obs.disconnect o ∉ r.2) ∧
+    ((∀ o, o ∈ s.clients → bufGet s o = []) →
+        r.1.clients = [] ∧ r.1.closeq = [] ∧ ∀ o, tbits r.1 o = 0 ∧ r.1.p.w.fno o = none) := by
+  intro s r
+  have ok := ok_xrun k ops
+  have c : CInv s := ok.inv
+  have rl := ok.rel
+  have ok2 : Ok _ r := ok_closeEach s.clients c rl
+  have closed : ∀ o, o ∈ s.clients → bufGet s o = [] → o ∉ r.1.clients :=
+    fun o hc hb => closeEach_closed s s.clients o c.ND hc hb
+  refine ⟨fun o hc hb => ⟨closed o hc hb, closeEach_life c rl s.clients o hc hc hb⟩, ?_, ?_, ?_⟩
+  · intro o hc hb
+    exact closeEach_pending s s.clients o hc hb (Or.inl hc)
+  · intro o hc
+    exact ⟨fun h => hc (closeEach_sub s s.clients o h), (closeEach_frame s s.clients o hc).2.2.2⟩
+  · intro hall
+    have e : r.1.clients = [] := by
+      apply List.eq_nil_iff_forall_not_mem.mpr
+      intro o h
+      have hc := closeEach_sub s s.clients o h
+      exact closed o hc (hall o hc) h
+    refine ⟨e, ?_, ?_⟩
+    · apply List.eq_nil_iff_forall_not_mem.mpr
+      intro o h
+      have := ok2.inv.Q o h
+      rw [e] at this; simp at this
+    · intro o
+      have hn : o ∉ r.1.clients := by rw [e]; simp
+      refine ⟨tbits_zero ok2.inv hn, ?_⟩
+      cases hf : r.1.p.w.fno o with
+      | none => rfl
+      | some f => exact absurd (ok2.inv.C o (by simp [hf])) hn
+
+/-- **Stop releases everything**: when `stopped` reaches the server after any history, every connection that
+is still a client afterwards is one whose close waits for queued output (it is in `_closeq`, its queue is not
+empty); every other connection that was open has had exactly `connect`, `disconnect` in the whole run, is in
+no table, and its descriptor is closed; and if nothing was queued, nothing at all remains. -/
+theorem stop_releases_all (k : Poller.Kind) (ops : List XOp) :
+    let s := (xrun k ops).1
+    let s' := (xrun k (ops ++ [.stop])).1
+    (∀ o, o ∈ s'.clients → o ∈ s.clients ∧ o ∈ s'.closeq ∧ bufGet s' o ≠ []) ∧
+    (∀ o, o ∈ s.clients → o ∉ s'.clients →
+        lifeOf o (xtrace k (ops ++ [.stop])) = [.connect o, .disconnect o] ∧ tbits s' o = 0 ∧
+        s'.p.w.fno o = none) ∧
+    ((∀ o, o ∈ s.clients → bufGet s o = []) → s'.clients = [] ∧ s'.closeq = [] ∧
+        ∀ o, tbits s' o = 0 ∧ s'.p.w.fno o = none) := by
+  intro s s'
+  have ok := ok_xrun k ops
+  have c : CInv s := ok.inv
+  have es : s' = (closeAll s).1 := by
+    show (xrunFrom (State.init k) (ops ++ [.stop])).1 = _
+    rw [xrunFrom_append]; rfl
+  have et : xtrace k (ops ++ [.stop]) = (xrun k ops).2 ++ ((closeAll s).2 ++ [.tab (rows (closeAll s).1)]) := by
+    show (xrunFrom (State.init k) (ops ++ [.stop])).2 = _
+    rw [xrunFrom_append]; simp [xrunFrom, xstep, xstepCore, s, xrun]
+  have ok' := ok_xrun k (ops ++ [.stop])
+  have sca := server_close_all k ops
+  simp only at sca
+  obtain ⟨a1, a2, _, a4⟩ := sca
+  refine ⟨?_, ?_, ?_⟩
+  · intro o h
+    rw [es] at h ⊢
+    have hc := closeEach_sub s s.clients o h
+    by_cases hb : bufGet s o = []
+    · exact absurd h (a1 o hc hb).1
+    · obtain ⟨_, q, b, _⟩ := a2 o hc hb
+      refine ⟨hc, q, ?_⟩
+      have hb' : bufGet (closeAll s).1 o = bufGet s o := congrArg (fun v => v.getD []) b
+      exact fun h => hb (hb'.symm.trans h)
+  · intro o hc hn
+    have hb : bufGet s o = [] := by
+      apply Classical.byContradiction
+      intro hb
+      exact hn (by rw [es]; exact (a2 o hc hb).1)
+    have hd : Obs.disconnect o ∈ (closeAll s).2 := closeEach_disconnects c ok.rel s.clients o hc hc hb
+    have hm : Obs.disconnect o ∈ lifeOf o (xtrace k (ops ++ [.stop])) := by
+      simp only [lifeOf, List.mem_filter]
+      refine ⟨?_, by simp⟩
+      rw [et]; simp [hd]
+    refine ⟨?_, tbits_zero ok'.inv hn, ?_⟩
+    · rcases lifecycle_x k (ops ++ [.stop]) o with h | h | h
+      · rw [h] at hm; simp at hm
+      · rw [h] at hm; simp at hm
+      · exact h
+    · cases hf : s'.p.w.fno o with
+      | none => rfl
+      | some f => exact absurd (ok'.inv.C o (by simp [s', hf])) hn
+  · intro hall
+    rw [es]
+    exact a4 hall
+
+/-! ### clients (W11): release by unregister / stop, UNIXClient, Pipe ends -/
+
+/-- **Client life cycle** (TCPClient and UNIXClient; events: connect with every outcome, close, write,
+readiness with every `recv`/`send` outcome, poller hang-up, `prepare_unregister`, `stopped`): for every history
+without connect-while-connected (the known finding keeps its signature, `client_reconnect_witness`),
+`connected` and `disconnected` alternate starting with `connected`, and there is exactly one `disconnected`
+per `connected`, except for the connection that is still up at the end. -/
+theorem client_lifecycle (ops : List Client.Op) (h : Client.noReconnect {} ops = true) :
+    Client.alternates false (Client.trace ops) = true ∧
+    Client.count .connected (Client.trace ops)
+      = Client.count .disconnected (Client.trace ops) + Client.b2n (Client.runFrom {} ops).1.connected := by
+  refine ⟨Client.alt_runFrom {} ops h, ?_⟩
+  have := Client.cnt_runFrom_eq {} ops h
+  simp only [Client.trace]
+  simp [Client.b2n] at this ⊢
+  omega
+
+/-- **Unregistering the client releases the connection**: after `prepare_unregister` the client is not
+connected and every `connected` of the run has its `disconnected`. -/
+theorem client_unregister_releases (ops : List Client.Op) (h : Client.noReconnect {} ops = true) :
+    (Client.runFrom {} (ops ++ [.unregister])).1.connected = false ∧
+    Client.count .connected (Client.trace (ops ++ [.unregister]))
+      = Client.count .disconnected (Client.trace (ops ++ [.unregister])) := by
+  have hd : (Client.runFrom {} (ops ++ [.unregister])).1.connected = false := by
+    rw [Client.runFrom_append]
+    simp only [Client.runFrom, Client.step]
+    exact Client.doClose_down _
+  have h2 : Client.noReconnect {} (ops ++ [.unregister]) = true :=
+    Client.noReconnect_append {} ops _ h (by simp [Client.noReconnect])
+  refine ⟨hd, ?_⟩
+  have := (client_lifecycle _ h2).2
+  rw [hd] at this
+  simpa [Client.b2n] using this
+
+/-- **A `Pipe()` end** is born connected and never reports `connected` for that; from then on the same
+alternation holds (`disconnected` first), so it reports at most one `disconnected` more than `connected`. -/
+theorem pipe_lifecycle (ops : List Client.Op) (h : Client.noReconnect Client.pipeInit ops = true) :
+    Client.alternates true (Client.pipeTrace ops) = true ∧
+    Client.count .disconnected (Client.pipeTrace ops) ≤ Client.count .connected (Client.pipeTrace ops) + 1 := by
+  refine ⟨Client.alt_runFrom Client.pipeInit ops h, ?_⟩
+  have := Client.cnt_runFrom Client.pipeInit ops
+  simp only [Client.pipeTrace]
+  simp [Client.b2n, Client.pipeInit] at this ⊢
+  omega
+
 /-! ### the statements are not vacuous -/
 
 def rdIn : Nat → Poller.Bits := fun _ => ⟨true, false, false, false⟩
@@ -135,5 +348,39 @@ example : Client.noReconnect {} [.connect .ok, .readable .eof, .connect .refused
 example : Client.trace [.connect .ok, .readable .eof, .connect .refused, .connect .ok, .write 3, .close,
                         .writable (.acc 3)]
     = [.connected, .disconnected, .unreachable, .error, .connected, .disconnected] := by decide
+
+/-- W11: two connections, one with queued output; `close()` of the whole server disconnects the idle one at
+    once and parks the other in `_closeq` (row 1|2|4|8|16|32|64 = 127); when its output has drained it is
+    disconnected too; a second `close()` and a `stop` find nothing to do -/
+example : xtrace .epoll [.op (.accept 1 7 false), .op (.accept 2 8 false), .op (.write 2 10), .closeAll,
+                         .op (.poll [8] rdInOut (fun _ => .again) (fun _ => .acc 10)), .closeAll, .stop]
+    = [.connect 1, .tab [(1, 105)], .connect 2, .tab [(1, 105), (2, 105)], .tab [(1, 105), (2, 123)],
+       .sclosed 1, .disconnect 1, .tab [(1, 128), (2, 127)],
+       .recvd 2 .again, .sent 2 10 (.acc 10), .sclosed 2, .disconnect 2, .tab [(1, 128), (2, 128)],
+       .tab [(1, 128), (2, 128)], .tab [(1, 128), (2, 128)]] := by decide
+
+/-- hypothesis of `no_trace_x` met by a disconnect that the server-wide close caused -/
+example : Obs.disconnect 1 ∈ xtrace .poll [.op (.accept 1 7 false), .closeAll] := by decide
+
+/-- hypotheses of `server_close_all` met: an open connection without and one with queued output -/
+example : let s := (xrun .poll [.op (.accept 1 7 false), .op (.accept 2 8 false), .op (.write 2 10)]).1
+    (1 ∈ s.clients ∧ bufGet s 1 = []) ∧ (2 ∈ s.clients ∧ bufGet s 2 ≠ []) ∧ 3 ∉ s.clients := by decide
+example : let s := (xrun .select [.op (.accept 1 7 false), .op (.accept 2 8 false)]).1
+    s.clients = [1, 2] ∧ ∀ o, o ∈ s.clients → bufGet s o = [] := by decide
+
+/-- `stop_releases_all`: connection 1 is released by the stop, connection 2 waits with queued output -/
+example : let s' := (xrun .select ([.op (.accept 1 7 false), .op (.accept 2 8 false), .op (.write 2 10)] ++ [.stop])).1
+    s'.clients = [2] ∧ s'.closeq = [2] := by decide
+
+/-- `client_lifecycle` / `client_unregister_releases`: hypothesis met by a UNIXClient-shaped history: connect,
+    unregister, a connect that fails on the closed socket, and one with stop while output is queued -/
+example : Client.noReconnect {} [.connect .ok, .unregister, .connect .failed] = true := by decide
+example : Client.trace ([.connect .ok, .write 3, .stopped, .writable (.acc 3), .connect .ok] ++ [.unregister])
+    = [.connected, .disconnected, .connected, .disconnected] := by decide
+
+/-- `pipe_lifecycle`: a Pipe end reads, is stopped: one `disconnected`, no `connected` -/
+example : Client.noReconnect Client.pipeInit [.readable (.data [1]), .stopped, .connect .failed] = true := by decide
+example : Client.pipeTrace [.readable (.data [1]), .stopped, .connect .failed] = [.read [1], .disconnected, .error] := by
+  decide
 
 end CV.C12
